@@ -385,6 +385,10 @@ def run(chk: core.Check):
             continue
         nrt += 1
         check_rt(chk, bib, text, eo)
+    # fixed witnesses of the two known findings (every run meets them, whatever the seed)
+    for text in ("see https://x.org/a_b?c=d&e=f%20g", "www.x.org/~u", "\u0170"):
+        nrt += 1
+        check_rt(chk, bib, text, {})
     # texts that begin or end with blanks or line breaks (a multi-line abstract, a padded value)
     for text in (" padded ", "\n  a multi-line\n  abstract\n", "trailing blank ", "\tx", "a\n", "  ", " é & b "):
         for eo in ({}, {"keep_math": False, "enclose_urls": False}):
